@@ -1,4 +1,4 @@
-/- driver ops for the C19 cost model: costorder, costboc, costbocparse, costdict, costtl -/
+/- driver ops for the C19 cost model: costorder, costboc, costbocparse, costdict, costtl, costtlside -/
 import TonVerif.Drv.Common
 import TonVerif.Model.Cost
 
@@ -132,6 +132,16 @@ def handleTl (t : String) (inputs : String) : String :=
       | _ => "bad")
     "ok " ++ ",".intercalate outs
 
+/-- side conditions of `c19_tl_total` for a table: `ids4`, the smallest `R ≤ 16` with `NoBareCycle tbl R`, max fields, `tlK` -/
+def handleTlSide (t : String) : String :=
+  match parseTable t with
+  | none => "bad-op"
+  | some tbl =>
+    let ids := if decide (Tl.Ids4 tbl) then "1" else "0"
+    match Tl.bareDepth? tbl 16 with
+    | none => s!"ok {ids} none {Tl.maxFields tbl} 0"
+    | some R => s!"ok {ids} {R} {Tl.maxFields tbl} {Tl.tlK tbl R}"
+
 def handle? (op : String) (args : List String) : Option String :=
   match op, args with
   | "costorder", [d] => some (handleOrder d)
@@ -140,6 +150,7 @@ def handle? (op : String) (args : List String) : Option String :=
   | "costbocparse", [h] => some (handleBocParse h)
   | "costdict", [d, k] => some (handleDict d k)
   | "costtl", [t, i] => some (handleTl t i)
+  | "costtlside", [t] => some (handleTlSide t)
   | _, _ => none
 
 end Cost
